@@ -80,7 +80,7 @@ def cases_for(ctx):
     for h, e, rec in rcsim.gen_record_histories(rng, ctx.budget(40, 1500)):
         cases.append((h, e, "record", {"record": rec}))
     cases += session_cases(ctx, ctx.budget(100, 4000), ctx.budget(150, None))
-    cases += [(h, e, kind) for h, e, kind in rcsim.gen_polling_histories(rng, ctx.budget(150, 4000))]
+    cases += [(h, e, kind) for h, e, kind in rcsim.gen_polling_histories(rng, ctx.budget(150, 1500))]
     cases += rcsim.gen_close_sweeps(rng, sample=ctx.budget(150, 1500))
     return cases
 
